@@ -176,7 +176,8 @@ type CB struct {
 	Kind      CBKind
 	PanicKind int // which kind of value is raised
 	ExitCode  int
-	Help      int // 1: the callback first calls PrintHelp on its command, 2: PrintLongHelp (public API)
+	Nested    bool // CBExit: the Exit is raised inside a nested application the callback runs (by the Set of one of its values)
+	Help      int  // 1: the callback first calls PrintHelp on its command, 2: PrintLongHelp (public API)
 }
 
 func (c CB) String() string {
@@ -191,6 +192,9 @@ func (c CB) String() string {
 	case CBPanic:
 		return "panics(" + panicKindNames[c.PanicKind%len(panicKindNames)] + ")"
 	case CBExit:
+		if c.Nested {
+			return fmt.Sprintf("runs a nested app whose value calls Exit(%d)", c.ExitCode)
+		}
 		return fmt.Sprintf("Exit(%d)", c.ExitCode)
 	}
 	return "absent"
@@ -200,17 +204,18 @@ var panicKindNames = []string{"string", "error", "int", "pointer", "slice", "str
 var exitCodes = []int{0, 1, 2, 3, 64, 255, -1, 127, 256, -128}
 
 type CmdDecl struct {
-	Name     string // names separated by blanks, first is the canonical one
-	Desc     string
-	LongDesc string
-	Spec     string
-	Hidden   bool
-	Decls    []*Decl
-	Before   CB
-	After    CB
-	Action   CB
-	Subs     []*CmdDecl
-	Policy   *flag.ErrorHandling // set by the command's own initializer (inherited by the sub-commands it declares afterwards)
+	Name       string // names separated by blanks, first is the canonical one
+	Desc       string
+	LongDesc   string
+	Spec       string
+	Hidden     bool
+	Decls      []*Decl
+	Before     CB
+	After      CB
+	Action     CB
+	Subs       []*CmdDecl
+	PolicyLate *flag.ErrorHandling // assigned to the command after it declared its sub-commands (they do not inherit it)
+	Policy     *flag.ErrorHandling // set by the command's own initializer (inherited by the sub-commands it declares afterwards)
 
 	Tag string // unique id inside the app: "r", "r.0", "r.0.1": set by Finish
 }
@@ -264,6 +269,12 @@ func (a *AppDecl) Describe() interface{} {
 		}
 		if c.Policy != nil {
 			m["error_handling_set_by_initializer"] = policyName(*c.Policy)
+		}
+		if c.PolicyLate != nil {
+			m["error_handling_assigned_after_declaring_sub_commands"] = policyName(*c.PolicyLate)
+		}
+		if c.Hidden {
+			m["hidden"] = true
 		}
 		if len(c.Subs) > 0 {
 			subs := []interface{}{}
@@ -576,6 +587,16 @@ func (inst *Instance) callback(c *cli.Cmd, ev string, cb CB, isAction bool, tag 
 			panic(v)
 		case CBExit:
 			p.Raised[ev] = exitMark(cb.ExitCode)
+			if cb.Nested {
+				// the callback runs another application; one of its values asks for the exit while being set.
+				// The request travels up through the nested Run into this callback: same thing as calling Exit here.
+				inner := cli.App("inner", "")
+				inner.ErrorHandling = flag.ContinueOnError
+				inner.Spec = "[-e]"
+				inner.Var(cli.VarOpt{Name: "e", Value: exitingValue(cb.ExitCode)})
+				inner.Action = func() {}
+				inner.Run([]string{"inner", "-e=now"})
+			}
 			cli.Exit(cb.ExitCode)
 		}
 	}
@@ -612,6 +633,9 @@ func (inst *Instance) configure(c *cli.Cmd, d *CmdDecl) {
 	for _, sub := range d.Subs {
 		sub := sub
 		c.Command(sub.Name, sub.Desc, func(sc *cli.Cmd) { inst.configure(sc, sub) })
+	}
+	if d.PolicyLate != nil {
+		c.ErrorHandling = *d.PolicyLate
 	}
 }
 
@@ -1052,3 +1076,9 @@ func (inst *Instance) declareShort(c *cli.Cmd, d *Decl, bv *boundVar) {
 		core.declared = true
 	}
 }
+
+// exitingValue is a user value whose Set calls cli.Exit.
+type exitingValue int
+
+func (e exitingValue) Set(string) error { cli.Exit(int(e)); return nil }
+func (e exitingValue) String() string   { return "" }
